@@ -159,6 +159,14 @@ theorem good_labels (cur : Token) (rest : List Token) (lb : List String) (syms :
       split
       · exact good_stop _ _
       · exact ((ih t r rfl).1 _ _).mono (hasTerm_cons hc)
+  · have hc : cur.isTerm = false := isTerm_eq_false.2 (by simp_all)
+    cases rest with
+    | nil => exact good_hang _ (by rw [hasTerm_single, hc]; simp)
+    | cons t r =>
+      simp only
+      split
+      · exact good_stop _ _
+      · exact ((ih t r rfl).1 _ _).mono (hasTerm_cons hc)
   · exact good_stop _ _
   · exact hcl _
 
